@@ -48,10 +48,11 @@ pub fn c17_entry_points() {
 }
 
 /// `nth(k)` (and with it `skip` / `step_by`) behaves as k+1 calls of `next`, from any node, for
-/// k <= 1 - thorough tier (two more symbolic reads of the 87204-word table)
+/// k <= 1. NOT REGISTERED (prefix x17): two more symbolic reads of the 87204-word table - ran
+/// 30 minutes at 16 GB without a verdict. Kept as documentation of the attempt.
 #[kani::proof]
 #[kani::unwind(4)]
-pub fn c17_nth_equals_repeated_next_t() {
+pub fn x17_nth_equals_repeated_next() {
     let i: usize = kani::any();
     kani::assume(i < hook::BOOK_SIZE);
     let k: usize = kani::any();
